@@ -93,6 +93,19 @@ class P:
                     par = uses + [reg] if k % 3 else uses[:3] + [reg] + uses[3:]
                     ops += ["||"] + par + [";;", post]
                 items.append((" ".join(ops), ("first-use-race", kind, 5)))
+        # re-registration (another precedence) racing parses on PERSISTENT threads, then the same threads parse again: whatever a
+        # thread cached while the registration was in flight must not outlive the registration's return (per-thread caches die
+        # with the one-shot threads of the other families)
+        X = hx("1 + 2 wq 3" + " + 2 wq 3" * 50)
+        NR = 12
+        for rep in range(4 if tier == "quick" else 40):
+            ops = ["H:61:rs(%s)" % hx("h61"), "REGI:%s:82:0:0:61" % hx("wq"), "PARSE:" + hx("1")] + ["@r%d/PARSE:%s" % (i, X) for i in range(NR)]
+            for k in range(100):
+                p_ = "64" if k % 2 == 0 else "82"
+                readers = ["@r%d/PARSE:%s" % (i, X) for i in range(NR)]
+                # the registration is issued 1 ms into the round: the readers (about 1.2 ms per parse) are in the middle of theirs
+                ops += ["||"] + readers + ["~1/REGI:%s:%s:0:0:61" % (hx("wq"), p_), ";;"] + readers
+            items.append((" ".join(ops), ("rereg-persistent", "I", 6)))
         return flow.mk_cases("conc", items)
 
     @staticmethod
@@ -160,11 +173,23 @@ class P:
         if not info or "sets" not in info: return None
         outs = impl.split(" ")
         if len(outs) != info["nops"]: return "missing results: " + impl[:80]
+        in_round = set()
+        for r in self._rounds(case.line.split(" ")[1:]): in_round.update(r)
+        first = None
         for pos in range(info["first"] + 1, info["nops"]):
             o = outs[pos]
             if o in ("||", ";;"): continue
             if strip_log(o) not in info["sets"].get(pos, set()):
-                return "call %d returned %s, not a result of any sequential order %s" % (pos - info["first"] - 1, strip_log(o)[:120], sorted(info["sets"].get(pos, set()))[:3])
+                msg = "call %d returned %s, not a result of any sequential order %s" % (pos - info["first"] - 1, strip_log(o)[:120], sorted(info["sets"].get(pos, set()))[:3])
+                if pos not in in_round:
+                    # a sequential call made after the parallel round is over: reported first (a concurrent call that observed a
+                    # registration half-way is the known finding D20 and must not hide this one)
+                    self.last_pos = pos
+                    return msg
+                if first is None: first = (pos, msg)
+        if first:
+            self.last_pos = first[0]
+            return first[1]
         return None
 
     def compare(self, case, impl, model):
@@ -174,7 +199,11 @@ class P:
         return {"sequential_orders_evaluated_by_model": self.nperm}
 
     def known(self, case, impl, detail):
-        if case.meta[0] == "reg-race" and case.meta[1] == "I" and "not a result of any sequential order" in detail:
+        in_round = False
+        if case.meta[0] == "rereg-persistent" and "not a result of any sequential order" in detail:
+            ops = case.line.split(" ")[1:]
+            in_round = any(getattr(self, "last_pos", -1) in r for r in self._rounds(ops))
+        if ((case.meta[0] == "reg-race" and case.meta[1] == "I") or in_round) and "not a result of any sequential order" in detail:
             return ("Known_C13_overlap: a registration of an operator that a concurrently parsed program uses can be observed half-way "
                     "(the registries are consulted once per token, with no snapshot) (D20)")
         return None
